@@ -53,6 +53,16 @@ def main():
         print("CHECKER-CRASH property=%s" % pid)
         sys.exit(3)
 
+    # thorough tier: run-time audit of the contracts on the real code of this tree (native small-scope families of the replay
+    # procedures). A firing audit on a tree whose obligations are all discharged = contract error or defect: reported, never ignored.
+    if os.environ["VERIF_TIER"] == "thorough" and hasattr(mod, "replay"):
+        t1 = time.time()
+        aud = safe_replay(mod, common.Ob(id="audit", witness=None), timeout=1800)
+        ok = not (aud and aud.get("reproduced"))
+        rep.add(common.Ob(id="audit.native-contract-audit", status="proved" if ok else "refuted", backend="native-execution", kind="bounded",
+                          time_s=time.time() - t1, detail=json.dumps(aud, default=str)[:1500], witness=None))
+        rep.bounded.append({"id": "B-AUDIT", "what": "the property-level contracts evaluated natively on the fixed input families of the replay procedure", "result": "passed" if ok else "failed"})
+
     known = common.load_known()
     violations = []
     known_lines = []
